@@ -271,6 +271,19 @@ def env(n=N, gran="G1"):
             cls.lock = sched.CoopLock(nm)
     if not isinstance(M.logix.setup.lock, sched.CoopLock):
         M.logix.setup.lock = sched.CoopLock("setup.lock")
+    # state machines created later (cold-start program: objects are created by the racing sessions) get cooperative locks too
+    import threading as _threading
+
+    class ThreadingShim:
+        @staticmethod
+        def Lock():
+            return sched.CoopLock("dfa:late")
+
+        def __getattr__(self, name):
+            return getattr(_threading, name)
+
+    if not isinstance(M.cpppo.automata.threading, ThreadingShim):
+        M.cpppo.automata.threading = ThreadingShim()
     # name the shared top-level parsers so that schedules are readable
     for nm, p in (("Object.parser", M.device.Object.parser), ("CM.parser", M.device.Connection_Manager.parser),
                   ("CM.parser_service_path", M.device.Connection_Manager.parser_service_path), ("UCMM.parser", M.ucmm.UCMM.parser),
@@ -301,6 +314,8 @@ def programs(tier):
         "B|R": [[("b", [("w", 0, ones), ("w", 0, twos)])], [("r", 0, N)]],
         "private": [[("w", 0, (1,)), ("r", 0, 1)], [("w", 1, (2,)), ("r", 1, 1)]],
         "W|W|R": [[("w", 0, ones)], [("w", 0, twos)], [("r", 0, N)]],
+        # both sessions arrive at a simulator whose CIP objects do not exist yet: one-time creation under setup.lock
+        "cold": [[("w", 0, ones)], [("r", 0, N)]],
     }
     if tier != "quick":
         P["B3|B3"] = [[("b", [("w", 0, ones), ("r", 0, N), ("w", 1, (5,))])], [("b", [("r", 0, N), ("w", 0, twos), ("r", 1, 2)])]]
@@ -400,6 +415,10 @@ class Runner:
 
     def reset(self):
         S = self.S
+        if self.pname == "cold":
+            M = self.e["M"]
+            M.device.lookup_reset()
+            M.logix.setup_reset()
         S.attrs["a"].default[:] = [0] * len(S.attrs["a"].default)
         S.attrs["p"].default[:] = [0, 0]
         M = self.e["M"]
@@ -529,10 +548,11 @@ def plan(tier):
     watched functions that touches possibly shared data."""
     if tier == "quick":
         return [("W|R", "cm", "G1", 2), ("B|B", "cm", "G0", 2), ("B|B", "cm", "G1", 1), ("WR|WR", "cm", "G1", 1), ("B|R", "cm", "G1", 1),
-                ("private", "cm", "G1", 1), ("W|W|R", "cm", "G0", 1), ("W|R", "frame", "G1", 1), ("B|B", "frame", "G0", 1)]
+                ("private", "cm", "G1", 1), ("W|W|R", "cm", "G0", 1), ("W|R", "frame", "G1", 1), ("B|B", "frame", "G0", 1),
+                ("cold", "frame", "G1", 1)]
     return [("W|R", "cm", "G1", 3), ("WR|WR", "cm", "G1", 2), ("B|B", "cm", "G1", 2), ("B|R", "cm", "G1", 2), ("B3|B3", "cm", "G0", 2),
             ("WW|RR", "cm", "G1", 2), ("private", "cm", "G1", 2), ("W|W|R", "cm", "G0", 2), ("W|W|R", "cm", "G1", 1),
-            ("W|R", "frame", "G1", 2), ("B|B", "frame", "G0", 2), ("WR|WR", "frame", "G0", 2)]
+            ("W|R", "frame", "G1", 2), ("B|B", "frame", "G0", 2), ("WR|WR", "frame", "G0", 2), ("cold", "frame", "G1", 2)]
 
 
 def run(ctx):
